@@ -138,20 +138,56 @@ def make_env(fs):
     def open_(filename, mode="rt", **kw):
         return FakeFile(filename)
 
-    return FakePath, mkdtemp, rmtree, unlink, open_
+    class FakeZip:
+        """zipfile.ZipFile over the model: an archive is a list of ("member", arcname, data) entries. Adding a member overwrites the
+        central directory in place, so from the first write until close() the archive is unreadable (("OPEN",) marker)."""
+
+        def __init__(self, path, mode="r"):
+            self.path, self.mode = str(path), mode
+            fs.op(f"zip open({mode}) {path}")
+            if mode == "w" or (mode == "a" and self.path not in fs.files):
+                fs.files[self.path] = []
+
+        def write(self, src, arcname=None):
+            fs.op(f"zip add {arcname} to {self.path}")
+            if str(src) not in fs.files:
+                raise FileNotFoundError(str(src))
+            data = tuple(fs.files[str(src)])
+            cur = [e for e in fs.files[self.path] if e != ("OPEN",)]
+            fs.files[self.path] = cur + [("member", str(arcname), data), ("OPEN",)]
+
+        def close(self):
+            fs.op(f"zip close {self.path}")
+            fs.files[self.path] = [e for e in fs.files[self.path] if e != ("OPEN",)]
+
+        def __enter__(self):
+            return self
+
+        def __exit__(self, *a):
+            self.close()
+
+    def builtin_open(filename, mode="r", **kw):
+        return FakeFile(filename)
+
+    return FakePath, mkdtemp, rmtree, unlink, open_, FakeZip, builtin_open
 
 
 class _Patched:
     """rebinds the environment names inside cogent3.util.io (and format.alignment.os) for the duration of one run"""
 
-    def __init__(self, fs):
+    def __init__(self, fs, real_open=False):
         import cogent3.format.alignment as FA
         import cogent3.util.io as IO
 
         self.IO, self.FA = IO, FA
-        self.saved = (IO.Path, IO.mkdtemp, IO.shutil, IO.open_, FA.os)
-        FakePath, mkdtemp, rmtree, unlink, open_ = make_env(fs)
-        IO.Path, IO.mkdtemp, IO.open_ = FakePath, mkdtemp, open_
+        self.saved = (IO.Path, IO.mkdtemp, IO.shutil, IO.open_, FA.os, IO.ZipFile)
+        FakePath, mkdtemp, rmtree, unlink, open_, FakeZip, builtin_open = make_env(fs)
+        IO.Path, IO.mkdtemp, IO.ZipFile = FakePath, mkdtemp, FakeZip
+        if real_open:
+            # zip destinations: the real open_ / open_zip / nested atomic_write run; only the builtin open they end in is the model
+            IO.open = builtin_open
+        else:
+            IO.open_ = open_
         IO.shutil = types.SimpleNamespace(rmtree=rmtree)
         FA.os = types.SimpleNamespace(unlink=unlink)
 
@@ -160,11 +196,29 @@ class _Patched:
 
     def __exit__(self, *a):
         IO, FA = self.IO, self.FA
-        IO.Path, IO.mkdtemp, IO.shutil, IO.open_, FA.os = self.saved
+        IO.Path, IO.mkdtemp, IO.shutil, IO.open_, FA.os, IO.ZipFile = self.saved
+        if "open" in IO.__dict__:
+            del IO.open
 
 
 DEST = "/d/out.txt"
+DESTZ = "/d/out.json.zip"
 NEW = ["new1", "new2"]
+
+
+def _dest(site):
+    return DESTZ if site.startswith("zip") else DEST
+
+
+def _old(site):
+    return [("member", "out.json", ("old",))] if site.startswith("zip") else ["old"]
+
+
+def _is_new(site, content):
+    if site.startswith("zip"):
+        # exactly one member holding the new text (the member is named after the staging file, as the real code does)
+        return isinstance(content, list) and len(content) == 1 and content[0][0] == "member" and content[0][2] == tuple(NEW)
+    return "".join(content or ["\0"]) == _expected(site)
 
 
 def _writer(site, fail_at):
@@ -177,7 +231,14 @@ def _writer(site, fail_at):
                 raise ValueError("formatting failed")
             yield c
 
-    if site == "with_block":  # the canonical use: tree.write / dict_array.write / table json
+    if site == "zip_block":  # a destination ending in .zip: staged as a whole temporary archive, moved over the destination in one step
+
+        def run():
+            with IO.atomic_write(DESTZ, mode="wt") as f:
+                for c in chunks():
+                    f.write(c)
+
+    elif site == "with_block":  # the canonical use: tree.write / dict_array.write / table json
 
         def run():
             with IO.atomic_write(DEST, mode="wt") as f:
@@ -233,7 +294,7 @@ def _expected(site):
 
 
 def _temp_left(fs):
-    return [k for k in list(fs.files) + list(fs.dirs) if k not in (DEST, "/d")]
+    return [k for k in list(fs.files) + list(fs.dirs) if k not in (DEST, DESTZ, "/d")]
 
 
 def mk_kill(site, preexists, _replay=None):
@@ -244,8 +305,8 @@ def mk_kill(site, preexists, _replay=None):
     def run(kappa):
         fs = FS(kappa)
         if preexists:
-            fs.files[DEST] = ["old"]
-        with _Patched(fs):
+            fs.files[_dest(site)] = _old(site)
+        with _Patched(fs, real_open=site.startswith("zip")):
             try:
                 _writer(site, None)()
                 finished = True
@@ -261,8 +322,8 @@ def mk_kill(site, preexists, _replay=None):
                 return i == k
 
         fs, finished = run(K())
-        content = fs.files.get(DEST)
-        ok = content == (["old"] if preexists else None) or "".join(content or ["\0"]) == _expected(site)
+        content = fs.files.get(_dest(site))
+        ok = content == (_old(site) if preexists else None) or _is_new(site, content)
         return {"status": "not_reproduced" if ok else "reproduced", "detail": f"killed before op {k} ({fs.log[-1] if fs.log else ''}): destination = {content!r}; ops = {fs.log}"}
 
     kap = psx.SReal(z3.ToReal(kv))
@@ -275,14 +336,14 @@ def mk_kill(site, preexists, _replay=None):
             return {"status": "cex", "cex": {"kappa": -1, "raised": repr(p.exc)}}
         fs, finished = p.result
         nops = max(nops, len(fs.log))
-        content = fs.files.get(DEST)
-        old = ["old"] if preexists else None
-        if content != old and "".join(content or ["\0"]) != _expected(site):
+        content = fs.files.get(_dest(site))
+        old = _old(site) if preexists else None
+        if content != old and not _is_new(site, content):
             s = z3.Solver()
             s.add(*p.assertions)
             s.check()
             return {"status": "cex", "cex": {"kappa": s.model().eval(kv, model_completion=True).as_long(), "destination": repr(content), "ops": fs.log}}
-        if finished and ("".join(content or []) != _expected(site) or _temp_left(fs)):
+        if finished and (not _is_new(site, content) or _temp_left(fs)):
             return {"status": "cex", "cex": {"kappa": 99, "destination": repr(content), "left": _temp_left(fs)}}
     return {"status": "holds", "paths": stats["paths"], "queries": stats["queries"], "detail": f"{stats['paths']} crash points over {nops} file-system operations", "solver_s": round(time.time() - t0, 2)}
 
@@ -296,9 +357,9 @@ def mk_fault(site, preexists, _replay=None):
     def run(phi):
         fs = FS(None, fault=phi)
         if preexists:
-            fs.files[DEST] = ["old"]
+            fs.files[_dest(site)] = _old(site)
         err = None
-        with _Patched(fs):
+        with _Patched(fs, real_open=site.startswith("zip")):
             try:
                 _writer(site, None)()
             except OSError as e:
@@ -306,9 +367,9 @@ def mk_fault(site, preexists, _replay=None):
         return fs, err
 
     def verdict(fs):
-        content = fs.files.get(DEST)
-        old = ["old"] if preexists else None
-        return content == old or "".join(content or ["\0"]) == _expected(site), content
+        content = fs.files.get(_dest(site))
+        old = _old(site) if preexists else None
+        return content == old or _is_new(site, content), content
 
     if _replay is not None:
         k = int(_replay["phi"])
@@ -335,7 +396,7 @@ def mk_fault(site, preexists, _replay=None):
             s.add(*p.assertions)
             s.check()
             return {"status": "cex", "cex": {"phi": s.model().eval(fv, model_completion=True).as_long(), "failed_op": fs.faulted, "destination": repr(content), "ops": fs.log}}
-        if fs.faulted is None and ("".join(content or []) != _expected(site) or _temp_left(fs)):
+        if fs.faulted is None and (not _is_new(site, content) or _temp_left(fs)):
             return {"status": "cex", "cex": {"phi": 99, "destination": repr(content)}}
     return {"status": "holds", "paths": stats["paths"], "queries": stats["queries"], "detail": f"{stats['paths']} fault points", "solver_s": round(time.time() - t0, 2)}
 
@@ -348,12 +409,12 @@ def mk_format_failure(site, preexists, _replay=None):
     def run(fail_at):
         fs = FS(None)
         if preexists:
-            fs.files[DEST] = ["old"]
+            fs.files[_dest(site)] = _old(site)
         raised = None
-        with _Patched(fs):
+        with _Patched(fs, real_open=site.startswith("zip")):
             try:
                 _writer(site, fail_at)()
-            except ValueError as e:
+            except Exception as e:  # noqa  (the formatter's ValueError, or whatever the cleanup path turns it into)
                 raised = e
         return fs, raised
 
@@ -369,9 +430,9 @@ def mk_format_failure(site, preexists, _replay=None):
 
     if _replay is not None:
         fs, raised = run(int(_replay["fail_at"]))
-        content = fs.files.get(DEST)
+        content = fs.files.get(_dest(site))
         bad = []
-        if content != (["old"] if preexists else None):
+        if content != (_old(site) if preexists else None):
             bad.append(f"destination is {content!r}")
         if _temp_left(fs):
             bad.append(f"left behind {_temp_left(fs)}")
@@ -411,8 +472,8 @@ def mk_format_failure(site, preexists, _replay=None):
         fa = s.model().eval(fv, model_completion=True).as_long()
         if raised is None:
             return {"status": "cex", "cex": {"fail_at": fa, "problem": "failure swallowed"}}
-        content = fs.files.get(DEST)
-        if content != (["old"] if preexists else None):
+        content = fs.files.get(_dest(site))
+        if content != (_old(site) if preexists else None):
             return {"status": "cex", "cex": {"fail_at": fa, "destination": repr(content), "ops": fs.log}}
         if _temp_left(fs):
             return {"status": "cex", "cex": {"fail_at": fa, "left_behind": _temp_left(fs), "ops": fs.log}}
@@ -420,29 +481,31 @@ def mk_format_failure(site, preexists, _replay=None):
 
 
 ENCODED = [
-    ("src/cogent3/util/io.py", ["atomic_write.__init__", "atomic_write._make_tmppath", "atomic_write._get_fileobj", "atomic_write.__enter__", "atomic_write.write", "atomic_write.__exit__", "atomic_write.close", "atomic_write._close_rename_standard", "get_format_suffixes"]),
+    ("src/cogent3/util/io.py", ["atomic_write.__init__", "atomic_write._make_tmppath", "atomic_write._get_fileobj", "atomic_write.__enter__", "atomic_write.write", "atomic_write.__exit__", "atomic_write.close", "atomic_write._close_rename_zip", "open_ / open_zip / _get_compression_open / _path_relative_to_zip_parent (zip destinations)", "atomic_write._close_rename_standard", "get_format_suffixes"]),
     ("src/cogent3/format/alignment.py", ["save_to_filename", "write_alignment_to_file"]),
     ("src/cogent3/core/tree.py", ["TreeNode.write (newick branch)"]),
     ("src/cogent3/util/table.py", ["Table.write (to_string branch)"]),
 ]
 BOUNDS = {
     "quick": ["one write of two chunks to one destination; destination pre-exists or not; crash before ANY of the file-system operations the write performs (symbolic index, every feasible value forked); formatting failure at chunk 0 or 1",
-              "call sites: `with atomic_write(...)` (tree / dict_array / table-json style), the real Table.write (write()+close() style, to_string formatter), save_to_filename, TreeNode.write"],
+              "call sites: `with atomic_write(...)` (tree / dict_array / table-json style), the real Table.write (write()+close() style, to_string formatter), save_to_filename, TreeNode.write",
+              "`with atomic_write('out.json.zip')`: a destination ending in .zip, through the real open_ / open_zip and the nested member-writing atomic_write, over a ZipFile model"],
 }
 BOUNDS["thorough"] = BOUNDS["quick"]
 ASSUMPTIONS = [
     "file system = in-memory model behind Path / mkdtemp / open_ / shutil.rmtree / os.unlink as used by cogent3.util.io; each operation is atomic; rename/replace atomically overwrite (POSIX)",
     "a kill stops the process before the chosen operation; no finally / __exit__ code has any effect afterwards",
     "formatting failure = the formatter raises ValueError while producing a chunk",
+    "zip archive = list of (member name, data) entries behind a ZipFile model: adding a member rewrites the central directory in place, so the archive is unreadable from the first added member until close(); a valid new archive = exactly one member holding the new text (the real code names the member after its staging file)",
     "I/O fault = one operation raises OSError; file data is buffered and reaches the file system when close() succeeds (a failing close loses it); cleanup of temporary files after an I/O fault is NOT required (the unchanged code leaves the temp dir when close fails)",
 ]
-OUTSIDE = ["real kernel / file-system semantics, power loss, fsync ordering", "gz / bz2 stream buffering, zip archives (_close_rename_zip)", "resume of an interrupted apply_to (data stores: C13 territory)"]
+OUTSIDE = ["real kernel / file-system semantics, power loss, fsync ordering", "gz / bz2 stream buffering; writes INTO an existing multi-member archive (in_zip=<path>)", "resume of an interrupted apply_to (data stores: C13 territory)"]
 TRUSTED = ["the file-system model in props/c19.py", "vlib/psx.py"]
 
 
 def obligations(tier):
     obs = []
-    for site in ("with_block", "table_write", "save_to_filename", "tree_write"):
+    for site in ("with_block", "table_write", "save_to_filename", "tree_write", "zip_block"):
         for pre in (True, False):
             obs.append(Ob(f"kill/{site}/pre{int(pre)}", __name__, "mk_kill", {"site": site, "preexists": pre}, kind="direct", timeout=600, group="kill"))
             obs.append(Ob(f"format_failure/{site}/pre{int(pre)}", __name__, "mk_format_failure", {"site": site, "preexists": pre}, kind="direct", timeout=600, group="failure"))
@@ -451,6 +514,8 @@ def obligations(tier):
 
 
 def classify(name, args, cex, rep):
+    if name.startswith("format_failure/zip"):
+        return "atomic_write:zip-destination-failure-before-first-write"
     if name.startswith("io_fault/"):
         return "atomic_write:partial-output-committed-after-io-fault"
     if name.startswith("kill/"):
